@@ -266,7 +266,9 @@ class ConnectionPool(object):
             except KeyError:
                 return
             else:
-                yield from release_task
+                # Shielded: cancelling the caller must not cancel the
+                # release of somebody else's connection.
+                yield from asyncio.shield(release_task)
 
     @asyncio.coroutine
     def session(self, host: str, port: int, use_ssl: bool=False):
